@@ -140,7 +140,9 @@ class C16(Prop):
     thorough_n = 30000
     rule = ("random config trees (depth<=3, keys with underscores/case variants so that distinct paths collide), "
             "all leaf kinds, environments built from the tree's own variable names (70%) plus unrelated/"
-            "near-miss names; non-trivial = at least one variable of the environment names an existing "
+            "near-miss names; 30%: one to three settings hold an instance of a subclass of list/tuple/int/str "
+            "(list subclass, tuple subclass, namedtuple, int subclass, IntEnum member, str subclass, str-Enum member); "
+            "non-trivial = at least one variable of the environment names an existing "
             "leaf or the tree is ambiguous; distinct by (tree, prefix, env)")
     trusted_base = [
         "Coq 8.16.1 kernel + vm_compute (shard evaluation)",
@@ -150,7 +152,10 @@ class C16(Prop):
     ]
     assumptions = [
         "keys and values are ASCII; int conversion restricted to [+-]?[0-9]+ or clearly non-numeric strings",
-        "float/custom-class leaves not modelled",
+        "float leaves and classes unrelated to list/tuple/int/str not modelled",
+        "an IntEnum-member setting is only given non-numeric text (the model load_py refuses every text there, "
+        "the spec has no reading of 'through their type' for Enum classes); the class of the converted value "
+        "(Port('5') is a Port, a str subclass setting becomes a plain str) is not observed, only its value",
         "the config consists of the defaults level only (other levels: C03)",
     ]
     not_modelled = ["os.environ access itself (environment passed as a mapping)", "float leaves"]
@@ -348,8 +353,10 @@ class C16(Prop):
                 d = d.setdefault(k, {})
             d[pth[-1]] = None
         view = ct.opt(ct.tree(gt.unjson(obs["view"]))) if "view" in obs else "None"
-        return "(mk %s %s %s %s %s %s %s %s)" % (ct.tree(base_tree(case["tree"])), more, ct.tree(mods), ct.tree(dels),
-                                               ct.s(case["prefix"]), env, o, view)
+        subs = ct.lst([ct.pair(ct.strs(list(p_)), "SubEnum" if cls in ENUM_SUBS else "SubPlain")
+                       for p_, cls in sub_annotation(case).items()])
+        return "(mk %s %s %s %s %s %s %s %s %s)" % (ct.tree(base_tree(case["tree"])), more, ct.tree(mods), ct.tree(dels),
+                                                  ct.s(case["prefix"]), env, o, view, subs)
 
     def nontrivial(self, case, obs):
         t = base_tree(case["tree"])
@@ -424,6 +431,22 @@ class C16(Prop):
                 yield c2
                 if any(shadow):
                     yield {k: v for k, v in c2.items() if k not in ("more", "mods", "dels", "history", "deferred")}
+
+
+def sub_annotation(case):
+    """{path: class name} for the settings of the merged configuration that hold a subclass instance:
+    the last level defining a path decides; a runtime modification writes a plain value"""
+    ann = {}
+    for lvl in [case["tree"]] + case.get("more", []):
+        subs = dict(sub_leaves(lvl))
+        for p_, _v in gt.leaf_paths(base_tree(lvl)):
+            if p_ in subs:
+                ann[p_] = subs[p_]
+            else:
+                ann.pop(p_, None)
+    for m in case.get("mods", []):
+        ann.pop(tuple(m[0]), None)
+    return ann
 
 
 def add_subclass_leaves(rng, case, eff, k=1):
